@@ -81,14 +81,21 @@ package keeper
 //@ loop 0 invariant [record_untouched_while_returning] reporter.DisputedDelegationAmounts == old(reporter.DisputedDelegationAmounts)
 
 //@ func (k Keeper).FeeRefund(ctx, hashId, amt) (err)
-//@ trusted
+//@ requires [record_well_formed] has(reporter.FeePaidFromStake, bytes(hashId)) ==> frec(hashId).Total > 0 && forall j in [0, len(frec(hashId).TokenOrigins)) :: frec(hashId).TokenOrigins[j] != nil
 //@ modifies reporter.*, staking.*, bank.bal
 //@ ensures [only_pool_accounts_touched] forall a addr :: a != module("bonded_tokens_pool") && a != module("not_bonded_tokens_pool") ==> bank.bal[a] == old(bank.bal[a])
+//@ ensures [refund_is_delegated_from_the_bonded_pool] called(Delegate) ==> arg(Delegate, tokenSrc) == 3 && !arg(Delegate, subtractAccount)
+//@ ensures [record_is_consumed] err == nil ==> !has(reporter.FeePaidFromStake, bytes(hashId))
+//@ ensures [unknown_dispute_rejected] !old(has(reporter.FeePaidFromStake, bytes(hashId))) ==> err != nil && nothing_written()
+//@ loop 0 "for _, source := range trackedFees.TokenOrigins"
+//@ loop 0 invariant [refund_is_delegated_from_the_bonded_pool] called(Delegate) ==> arg(Delegate, tokenSrc) == 3 && !arg(Delegate, subtractAccount)
+//@ loop 0 invariant [only_pool_accounts_touched] forall a addr :: a != module("bonded_tokens_pool") && a != module("not_bonded_tokens_pool") ==> bank.bal[a] == old(bank.bal[a])
+//@ loop 0 invariant [record_untouched_while_refunding] reporter.FeePaidFromStake == old(reporter.FeePaidFromStake)
 
 //@ func (k Keeper).AddAmountToStake(ctx, acc, amt) (err)
-//@ trusted
 //@ modifies reporter.*, staking.*, bank.bal
 //@ ensures [only_pool_accounts_touched] forall a addr :: a != module("bonded_tokens_pool") && a != module("not_bonded_tokens_pool") ==> bank.bal[a] == old(bank.bal[a])
+//@ ensures [stake_is_added_from_the_bonded_pool_for_the_given_amount] err == nil ==> called(Delegate) && arg(Delegate, tokenSrc) == 3 && !arg(Delegate, subtractAccount) && arg(Delegate, bondAmt) == amt
 
 // tsum(s, n): total of the first n per-backer records of s; frec(h): the fee-from-stake record of dispute h.
 //@ define tsum(s, n) = sum j in [0, n) :: s[j].Amount
@@ -159,3 +166,17 @@ package keeper
 //@ loop 0 invariant [nothing_written_yet] nothing_written()
 //@ iter 0 invariant [backers_so_far_sum_to_the_total] tsum(delegates, len(delegates)) == totalTokens && iterError == nil && forall j in [0, len(delegates)) :: allocated(delegates[j])
 //@ iter 1 invariant [backers_so_far_sum_to_the_total] tsum(delegates, len(delegates)) == totalTokens && iterError == nil && forall j in [0, len(delegates)) :: allocated(delegates[j])
+
+// ---- taking disputed stake out of a delegation (C05, C11) ----
+// held(v, d): the token value (18-decimal mantissa) of delegation d with validator v.
+//@ define held(v, d) = tokens_from_shares(staking.validators[bytes(v)], d.Shares)
+
+//@ func (k Keeper).deductFromdelegation(ctx, delAddr, valAddr, delTokens0) (rest, err)
+//@ requires [amount_non_negative] delTokens0 >= 0
+//@ requires [validators_have_delegator_shares] forall v bytes :: has(staking.validators, v) ==> staking.validators[v].DelegatorShares > 0
+//@ modifies staking.*, bank.bal
+//@ ensures [fully_covered_by_the_delegation] err == nil && ret(GetDelegation, 1) == nil && held(valAddr, ret(GetDelegation, 0)) >= delTokens0 ==> rest == 0
+//@ ensures [rest_is_what_the_delegation_could_not_cover] err == nil && ret(GetDelegation, 1) == nil && held(valAddr, ret(GetDelegation, 0)) < delTokens0 ==> rest == delTokens0 - old(held(valAddr, ret(GetDelegation, 0)))
+//@ ensures [escrow_receives_exactly_what_was_unbonded] err == nil && called(Unbond) ==> bank.bal[module("dispute")] == old(bank.bal[module("dispute")]) + ret(Unbond, 0)
+//@ ensures [nothing_moves_without_unbonding] err == nil && !called(Unbond) ==> bank.bal == old(bank.bal)
+//@ ensures [only_pools_and_escrow_touched] forall a addr :: a != module("dispute") && a != module("bonded_tokens_pool") && a != module("not_bonded_tokens_pool") ==> bank.bal[a] == old(bank.bal[a])
